@@ -13,7 +13,7 @@ from datetime import datetime, timedelta, timezone
 from fractions import Fraction
 
 sys.path.insert(0, os.path.dirname(os.path.abspath(__file__)))
-from lib import Check, REPO, guarded, reslit, zlit, blit, listlit   # noqa: E402
+from lib import guarded_alarm, Check, REPO, guarded, reslit, zlit, blit, listlit   # noqa: E402
 import gen_value                                                     # noqa: E402  (tools/: translator tie for __eq__/__hash__/copy)
 
 import logging                                                      # noqa: E402
@@ -1269,7 +1269,7 @@ def history_checks(spec, styles, props, hash_first, segments, other, route_names
     for n, steps in enumerate(segments):
         for i, (path, nm, kw) in enumerate(steps):
             takes, fn = OPS[nm]
-            ok += guarded(lambda: fn(resolve(a, path), dict(kw) if takes else {}, aux))[0] == 'Ok'
+            ok += guarded_alarm(lambda: fn(resolve(a, path), dict(kw) if takes else {}, aux), 10)[0] == 'Ok'   # (a call that never returns is not C15's subject: counted as not ok)
             if light:
                 F = history_light(a, b, rec, hb)
                 if F:
